@@ -15,6 +15,8 @@ Ports == 1..nPorts
 Bcast == "ff"
 
 SwitchInit(n, en) == nPorts = n /\ enabled = en /\ table = [m \in {} |-> 0]
+\* a switch observed from the middle of its life: the table it has learnt so far is part of the configuration
+SwitchInitT(n, en, t) == nPorts = n /\ enabled = en /\ table = t
 
 \* where a frame from `src' to `dst' arriving on port `inp' must go, given the table AFTER learning
 Learnt(src, inp) == [m \in DOMAIN table \cup {src} |-> IF m = src THEN inp ELSE table[m]]
